@@ -32,7 +32,7 @@ func c06Base() model.Frame {
 		// "ı" upper-cases to a shorter, "ɐ" to a longer UTF-8 sequence
 		{Name: "s", Kind: model.String, Cells: []model.Cell{model.S("aıb"), N, model.S(""), model.S("ɐx")}},
 		// "lo" and "Lo" become one value under ToUpper, with other values declared after them
-		{Name: "e", Kind: model.Enum, EnumVals: []string{"lo", "Lo", "hi", "ɐ"}, Cells: []model.Cell{model.S("hi"), model.S("Lo"), N, model.S("ɐ")}},
+		{Name: "e", Kind: model.Enum, EnumVals: []string{"lo", "LO", "Lo", "hi", "ɐ"}, Cells: []model.Cell{model.S("hi"), model.S("Lo"), N, model.S("ɐ")}},
 	}}
 }
 
